@@ -1,27 +1,27 @@
 CONSTANTS
   M = 16
-  MaxPackets = 3
+  MaxPackets = 5
   MinPackets = 1
   FrameSizes = {1, 2, 3}
-  SameTs = TRUE
-  MaxLates = {2}
+  SameTs = FALSE
+  MaxLates = {4}
   Delays = {0}
-  StartBacks = {2}
+  StartBacks = {2, 9}
   MarkerModes = {TRUE, FALSE}
   Windows = {3}
   Modes = {"all"}
-  MaxLoss = 1
+  MaxLoss = 0
   MaxDup = 1
-  MaxPopCalls = 3
-  MaxMidFlush = 0
-  Eagers = {FALSE}
+  MaxPopCalls = 1
+  MaxMidFlush = 1
+  Eagers = {FALSE, TRUE}
   Holds = {0}
   HoldFors = {0}
-  Algo = "abstract"
+  Algo = "ring"
   Impl = "asis"
   Sampling = FALSE
 INIT Init
 NEXT Next
 VIEW mcview
-INVARIANTS ModelContiguousSameTs ModelStartsAtHead ModelInOrder ModelNoPacketTwice
+INVARIANTS ModelContiguousSameTs ModelStartsAtHead ModelComplete
 CHECK_DEADLOCK FALSE
